@@ -21,12 +21,20 @@
 //!                   user-owned `MyLexerTypes` whose `impl LexerTypes` says `type LexemeT = LexA<StorageT>` /
 //!                   `LexB<StorageT>` — the two states of ONE type before and after the user edits the impl:
 //!                   `type_name::<MyLexerTypes>()` and StorageT are the same, only LexemeT differs
+//!   mode=M         the manual-lexer flow (lrlex/examples/calc_manual_lex/build.rs): CTParserBuilder::build, then
+//!                   CTTokenMapBuilder::<StorageT>::new(tmod, ctp.token_map()) [.rename_map(..)] [.allow_dead_code(..)]
+//!                   .build(), which writes $OUT_DIR/<tmod>.rs (OUT_DIR is set by the caller of this process)
+//!     tmod=<hex>      module name (= output file name)
+//!     tren=-|<hex k>:<hex v>,...   rename map (- : rename_map not called)
+//!     tadc=-|0|1      allow_dead_code
+//!     tapi=b|f        b: the builder; f: the deprecated wrapper ct_token_map(mod, map, rename_map)
+//!   result `P:<res> T:<res>`
 //! result:  `P:<res> L:<res>` with <res> = `ok:<regenerated 0|1|?>` | `err:<hex msg prefix>` |
 //!   `panic` | `-` (not run)
 #![allow(deprecated)]
 use gvh::common::{hex, unhex};
 use gvh::util::*;
-use lrlex::{CTLexerBuilder, DefaultLexerTypes};
+use lrlex::{CTLexerBuilder, CTTokenMapBuilder, DefaultLexerTypes};
 use lrpar::{CTParserBuilder, LexerTypes, RecoveryKind};
 use std::collections::HashMap;
 
@@ -281,6 +289,66 @@ macro_rules! gen_run {
                             }));
                             format!(
                                 "P:ok:{} L:{}",
+                                if regen { 1 } else { 0 },
+                                r2.unwrap_or_else(|_| "panic".to_string())
+                            )
+                        }
+                    }
+                }
+                "M" => {
+                    let kv2 = kv.clone();
+                    let r = catch(std::panic::AssertUnwindSafe(move || {
+                        match cfg_p(CTParserBuilder::<DefaultLexerTypes<$t>>::new(), &kv2, modname)
+                            .build()
+                        {
+                            Ok(p) => Ok((p.regenerated(), p.token_map().clone())),
+                            Err(e) => Err(e.to_string()),
+                        }
+                    }));
+                    match r {
+                        Err(_) => "P:panic T:-".to_string(),
+                        Ok(Err(e)) => format!("P:err:{} T:-", short(&e)),
+                        Ok(Ok((regen, map))) => {
+                            let tmod = unhex(&g("tmod"));
+                            let ren: Option<Vec<(String, String)>> = if g("tren") == "-" {
+                                None
+                            } else {
+                                Some(
+                                    g("tren")
+                                        .split(',')
+                                        .filter(|p| !p.is_empty())
+                                        .map(|p| {
+                                            let (k, v) = p.split_once(':').unwrap();
+                                            (unhex(k), unhex(v))
+                                        })
+                                        .collect(),
+                                )
+                            };
+                            let adc = g("tadc");
+                            let tapi = g("tapi");
+                            let r2 = catch(std::panic::AssertUnwindSafe(|| {
+                                let res = if tapi == "f" {
+                                    let rm: Option<HashMap<&str, &str>> = ren.as_ref().map(|v| {
+                                        v.iter().map(|(k, v)| (k.as_str(), v.as_str())).collect()
+                                    });
+                                    lrlex::ct_token_map::<$t>(&tmod, &map, rm.as_ref())
+                                } else {
+                                    let mut b = CTTokenMapBuilder::<$t>::new(tmod.clone(), &map);
+                                    if let Some(v) = &ren {
+                                        b = b.rename_map(Some(v.clone()));
+                                    }
+                                    if adc != "-" {
+                                        b = b.allow_dead_code(adc == "1");
+                                    }
+                                    b.build()
+                                };
+                                match res {
+                                    Ok(()) => "ok".to_string(),
+                                    Err(e) => format!("err:{}", short(&e.to_string())),
+                                }
+                            }));
+                            format!(
+                                "P:ok:{} T:{}",
                                 if regen { 1 } else { 0 },
                                 r2.unwrap_or_else(|_| "panic".to_string())
                             )
